@@ -104,9 +104,12 @@ def check_one(arg):
             or any(not its for f, its in files.items() if f not in hollow):
         return dict(fails=[], skipped=1)
     absent = set(rng.sample(sorted(files), 1)) if (v % 4 == 3 and files) else set()
-    d1 = tempfile.mkdtemp(prefix="verif_c13_a_")
-    d2 = tempfile.mkdtemp(prefix="verif_c13_b_")
-    d3 = tempfile.mkdtemp(prefix="verif_c13_c_")
+    # the alphabetical order of the directory names is NOT the order the caller lists them in (half of the cases)
+    pre = rng.choice([("a", "b", "c"), ("z", "m", "a"), ("m", "z", "b"), ("c", "b", "a")])
+    base = tempfile.mkdtemp(prefix="verif_c13_")
+    d1, d2, d3 = (os.path.join(base, "%s_dir%d" % (pre[k], k)) for k in range(3))
+    for dd in (d1, d2, d3):
+        os.mkdir(dd)
     fails = []
     try:
         # genuine files spread over the first two directories of the include path (an included file may include
@@ -171,9 +174,7 @@ def check_one(arg):
             if kind == "file":
                 os.unlink(mp)
     finally:
-        shutil.rmtree(d1, ignore_errors=True)
-        shutil.rmtree(d2, ignore_errors=True)
-        shutil.rmtree(d3, ignore_errors=True)
+        shutil.rmtree(base, ignore_errors=True)
     return dict(fails=fails, skipped=0)
 
 
